@@ -36,7 +36,7 @@ RESPONSES = "vgi_rpc/http/server/_responses.py"
 # exception class codes shared with coq/model/M_Validate.v (cTypeError ...) and props/C06.py
 CLASS_CODES = {
     "TypeError": 0, "KeyError": 1, "ValueError": 2, "ArrowInvalid": 3, "StopIteration": 4, "RpcError": 5,
-    "VersionError": 6, "Exception": 7, "OSError": 8, "MethodNotImplementedError": 9, "AttributeError": 10,
+    "VersionError": 6, "Exception": 7, "OSError": 8, "MethodNotImplementedError": 9, "AttributeError": 10, "IPCError": 11,
 }
 STAGE_OF = {"_deserialize_params": "SDeser", "_validate_call_signature": "SSig", "_validate_params": "SParams"}
 
